@@ -51,6 +51,13 @@ def programs(thorough: bool) -> list[dict]:
             for k2 in plain_kids:
                 if k1["mr"] == k2["mr"]:
                     out.append(node(fl, mr, sc, [k1, k2], "group"))
+    # a group whose results are consumed only up to the first one (early return / any()): every member still runs
+    for fl, mr, sc in roots[:2]:
+        for k1 in plain_kids[:2]:
+            for k2 in plain_kids[:2]:
+                if k1["mr"] == k2["mr"]:
+                    out.append(node(fl, mr, sc, [k1, k2], "group_first"))
+                    out.append(node(fl, mr, sc, [k1, k2, k1], "group_first"))
     grand = [kids1[0], kids1[1], kids1[2], kids1[4]]
     for fl, mr, sc in roots:
         for mfl in "pd":
